@@ -1,5 +1,202 @@
 /-
-C15 — property theorems (stub; nothing proved yet).
+C15 — precipitate shape factors match the geometry they describe.
+
+Theorems about
+* `KawinV.Gen.C15`  — definitions REGENERATED from kawin/precipitation/parameters/ShapeFactors.py
+  on every run (inner formulas and `…Min` constants of the four shape descriptions),
+* `KawinV.Shape`    — hand model of the public wrappers (`_processAspectRatio`, `…Factor`),
+* `KawinV.Bisect`   — hand model of `ShapeFactor._findRcrit` / `_findRcritScalar`.
+
+Generic part: α is any linearly ordered field with the transcendental atoms `Trans α`; laws of
+the atoms that a statement needs (cbrt(x)³ = x, x^(2/3) cubed = x², arccos = π/2 − arcsin,
+artanh = ½(log(1+e) − log(1−e))) are explicit hypotheses.  Real part: the atoms are Mathlib's
+functions and the laws are proved.
 -/
+import KawinV.Gen.C15Shape
+import KawinV.Model.ShapeWrap
+import KawinV.Model.Bisect
+import Mathlib.Tactic.Ring
+import Mathlib.Tactic.Linarith
+import Mathlib.Tactic.FieldSimp
+import Mathlib.Tactic.NormNum
+import Mathlib.Tactic.Positivity
+import Mathlib.Algebra.Order.Field.Basic
+import Mathlib.Analysis.SpecialFunctions.Pow.Real
+import Mathlib.Analysis.SpecialFunctions.Trigonometric.Inverse
+import Mathlib.Analysis.SpecialFunctions.Trigonometric.Arctan
+
+set_option linter.unusedSectionVars false
+set_option linter.unusedVariables false
+set_option linter.unusedSimpArgs false
+
 namespace KawinV.Props.C15
+open KawinV KawinV.Gen.C15 KawinV.Shape KawinV.Bisect
+
+/-! ## textbook closed forms (written here by hand; the generated formulas are compared to them) -/
+section closedforms
+variable {α : Type} [Field α] [Trans α]
+
+/-- eccentricity of a spheroid with short semi-axis `s` and long semi-axis `l` -/
+def ecc (s l : α) : α := Trans.sqrt (1 - s ^ 2 / l ^ 2)
+
+/-- surface area of a prolate spheroid (equatorial semi-axis `a`, polar semi-axis `c ≥ a`):
+`2πa²(1 + c/(a e) · asin e)` -/
+def prolateArea (a c : α) : α :=
+  2 * Trans.pi * a ^ 2 * (1 + c / (a * ecc a c) * Trans.arcsin (ecc a c))
+
+/-- surface area of an oblate spheroid (equatorial semi-axis `a`, polar semi-axis `c ≤ a`):
+`2πa² + π (c²/e) · log((1+e)/(1−e))`  (= `2πa²(1 + (1−e²)/e · artanh e)`) -/
+def oblateArea (a c : α) : α :=
+  2 * Trans.pi * a ^ 2 + Trans.pi * (c ^ 2 / ecc c a) * Trans.log ((1 + ecc c a) / (1 - ecc c a))
+
+/-- surface area of a sphere -/
+def sphereArea (R : α) : α := 4 * Trans.pi * R ^ 2
+
+/-- surface area of a cuboid with edges `s, s, l` -/
+def cuboidArea (s l : α) : α := 2 * (s * s) + 4 * (s * l)
+
+/-- capacitance of a prolate spheroid in units where a sphere of radius R has capacitance R:
+`c e / artanh e` -/
+def prolateCap (a c : α) : α := c * ecc a c / Trans.arctanh (ecc a c)
+
+/-- capacitance of an oblate spheroid (equatorial `a`, polar `c`): `a e / asin e` -/
+def oblateCap (a c : α) : α := a * ecc c a / Trans.arcsin (ecc c a)
+
+end closedforms
+
+section generic
+variable {α : Type} [Field α] [LinearOrder α] [IsStrictOrderedRing α] [Trans α]
+
+local notation "π" => (Trans.pi : α)
+
+/-! ## helper lemmas -/
+
+theorem cbrt_ne_zero (hc : ∀ x : α, Trans.cbrt x ^ 3 = x) {x : α} (hx : x ≠ 0) :
+    (Trans.cbrt x : α) ≠ 0 := by
+  intro h
+  have := hc x
+  rw [h] at this
+  exact hx (by simpa using this.symm)
+
+/-- cubes decide equality of positive numbers -/
+theorem eq_of_cube_eq {x y : α} (hx : 0 < x) (hy : 0 < y) (h : x ^ 3 = y ^ 3) : x = y :=
+  (pow_left_inj₀ hx.le hy.le (by norm_num)).mp h
+
+/-! ## semi-axes of unit volume -/
+
+/-- **needle, unit volume**: the three semi-axes span a spheroid of volume 1. -/
+theorem needle_unit_volume (ar : α) (hc : ∀ x : α, Trans.cbrt x ^ 3 = x) (har : ar ≠ 0) (hpi : π ≠ 0) :
+    4 * π / 3 * (needle_normalRadii_r0 ar * needle_normalRadii_r1 ar * needle_normalRadii_r2 ar) = 1 := by
+  simp only [needle_normalRadii_r0, needle_normalRadii_r1, needle_normalRadii_r2]
+  have hk := hc (3 / (4 * π))
+  have hs := hc (1 / ar)
+  generalize (Trans.cbrt (3 / (4 * π)) : α) = k at hk
+  generalize (Trans.cbrt (1 / ar) : α) = s at hs
+  have : 4 * π / 3 * (k * s * (k * s) * (k * (s * ar))) = 4 * π / 3 * (k ^ 3 * s ^ 3 * ar) := by ring
+  rw [this, hk, hs]
+  field_simp
+
+/-- **needle, aspect ratio**: long / short = ar, and the two short axes are equal. -/
+theorem needle_aspect (ar : α) (hc : ∀ x : α, Trans.cbrt x ^ 3 = x) (har : ar ≠ 0) (hpi : π ≠ 0) :
+    needle_normalRadii_r2 ar / needle_normalRadii_r0 ar = ar
+    ∧ needle_normalRadii_r0 ar = needle_normalRadii_r1 ar := by
+  simp only [needle_normalRadii_r0, needle_normalRadii_r1, needle_normalRadii_r2]
+  have hk : (Trans.cbrt (3 / (4 * π)) : α) ≠ 0 :=
+    cbrt_ne_zero hc (div_ne_zero (by norm_num) (mul_ne_zero (by norm_num) hpi))
+  have hs : (Trans.cbrt (1 / ar) : α) ≠ 0 := cbrt_ne_zero hc (one_div_ne_zero har)
+  refine ⟨?_, rfl⟩
+  field_simp
+
+/-- **plate, unit volume** -/
+theorem plate_unit_volume (ar : α) (hc : ∀ x : α, Trans.cbrt x ^ 3 = x) (har : ar ≠ 0) (hpi : π ≠ 0) :
+    4 * π / 3 * (plate_normalRadii_r0 ar * plate_normalRadii_r1 ar * plate_normalRadii_r2 ar) = 1 := by
+  simp only [plate_normalRadii_r0, plate_normalRadii_r1, plate_normalRadii_r2, npow]
+  have hk := hc (3 / (4 * π))
+  have hs := hc (1 / (ar * ar))
+  generalize (Trans.cbrt (3 / (4 * π)) : α) = k at hk
+  generalize (Trans.cbrt (1 / (ar * ar)) : α) = s at hs
+  have : 4 * π / 3 * (k * (s * ar) * (k * (s * ar)) * (k * s)) = 4 * π / 3 * (k ^ 3 * s ^ 3 * (ar * ar)) := by ring
+  rw [this, hk, hs]
+  field_simp
+
+/-- **plate, aspect ratio**: long / short = ar, and the two long axes are equal. -/
+theorem plate_aspect (ar : α) (hc : ∀ x : α, Trans.cbrt x ^ 3 = x) (har : ar ≠ 0) (hpi : π ≠ 0) :
+    plate_normalRadii_r0 ar / plate_normalRadii_r2 ar = ar
+    ∧ plate_normalRadii_r0 ar = plate_normalRadii_r1 ar := by
+  simp only [plate_normalRadii_r0, plate_normalRadii_r1, plate_normalRadii_r2, npow]
+  have hk : (Trans.cbrt (3 / (4 * π)) : α) ≠ 0 :=
+    cbrt_ne_zero hc (div_ne_zero (by norm_num) (mul_ne_zero (by norm_num) hpi))
+  have hs : (Trans.cbrt (1 / (ar * ar)) : α) ≠ 0 :=
+    cbrt_ne_zero hc (one_div_ne_zero (mul_ne_zero har har))
+  refine ⟨?_, rfl⟩
+  field_simp
+
+/-- **sphere, unit volume and aspect ratio 1** (the argument is ignored) -/
+theorem sphere_unit_volume (ar : α) (hc : ∀ x : α, Trans.cbrt x ^ 3 = x) (hpi : π ≠ 0) :
+    4 * π / 3 * (sphere_normalRadii_r0 ar * sphere_normalRadii_r1 ar * sphere_normalRadii_r2 ar) = 1
+    ∧ sphere_normalRadii_r2 ar / sphere_normalRadii_r0 ar = 1 := by
+  simp only [sphere_normalRadii_r0, sphere_normalRadii_r1, sphere_normalRadii_r2]
+  have hk := hc (3 / (4 * π))
+  have hk0 : (Trans.cbrt (3 / (4 * π)) : α) ≠ 0 :=
+    cbrt_ne_zero hc (div_ne_zero (by norm_num) (mul_ne_zero (by norm_num) hpi))
+  generalize (Trans.cbrt (3 / (4 * π)) : α) = k at hk hk0
+  constructor
+  · have : 4 * π / 3 * (k * 1 * (k * 1) * (k * 1)) = 4 * π / 3 * k ^ 3 := by ring
+    rw [this, hk]; field_simp
+  · field_simp
+
+/-- **cuboid, unit volume**: the product of the three edges is 1. -/
+theorem cuboid_unit_volume (ar : α) (hc : ∀ x : α, Trans.cbrt x ^ 3 = x) (har : ar ≠ 0) :
+    cuboid_normalRadii_r0 ar * cuboid_normalRadii_r1 ar * cuboid_normalRadii_r2 ar = 1 := by
+  simp only [cuboid_normalRadii_r0, cuboid_normalRadii_r1, cuboid_normalRadii_r2]
+  have hs := hc (1 / ar)
+  generalize (Trans.cbrt (1 / ar) : α) = s at hs
+  have : s * s * (s * ar) = s ^ 3 * ar := by ring
+  rw [this, hs]; field_simp
+
+/-- **cuboid, aspect ratio** -/
+theorem cuboid_aspect (ar : α) (hc : ∀ x : α, Trans.cbrt x ^ 3 = x) (har : ar ≠ 0) :
+    cuboid_normalRadii_r2 ar / cuboid_normalRadii_r0 ar = ar
+    ∧ cuboid_normalRadii_r0 ar = cuboid_normalRadii_r1 ar := by
+  simp only [cuboid_normalRadii_r0, cuboid_normalRadii_r1, cuboid_normalRadii_r2]
+  have hs : (Trans.cbrt (1 / ar) : α) ≠ 0 := cbrt_ne_zero hc (one_div_ne_zero har)
+  refine ⟨?_, rfl⟩
+  field_simp
+
+/-! ## equivalent-radius factor: radius of the sphere with the volume of the shape whose short
+axis (edge) is 1 -/
+
+/-- needle with semi-axes (1, 1, ar): `4π/3 · R³ = 4π/3 · 1·1·ar` -/
+theorem needle_eqRadius_volume (ar : α) (hc : ∀ x : α, Trans.cbrt x ^ 3 = x) :
+    4 * π / 3 * needle_eqRadius ar ^ 3 = 4 * π / 3 * (1 * 1 * ar) := by
+  simp only [needle_eqRadius, hc]; ring
+
+/-- plate with semi-axes (ar, ar, 1) -/
+theorem plate_eqRadius_volume (ar : α) (hc : ∀ x : α, Trans.cbrt x ^ 3 = x) :
+    4 * π / 3 * plate_eqRadius ar ^ 3 = 4 * π / 3 * (ar * ar * 1) := by
+  simp only [plate_eqRadius, hc, npow]; ring
+
+/-- cuboid with edges (1, 1, ar): `4π/3 · R³ = 1·1·ar` -/
+theorem cuboid_eqRadius_volume (ar : α) (hc : ∀ x : α, Trans.cbrt x ^ 3 = x) (hpi : π ≠ 0) :
+    4 * π / 3 * cuboid_eqRadius ar ^ 3 = 1 * 1 * ar := by
+  simp only [cuboid_eqRadius, hc]; field_simp
+
+theorem sphere_factors_one (ar : α) :
+    sphere_eqRadius ar = 1 ∧ sphere_thermoFactor ar = 1 ∧ sphere_kineticFactor ar = 1 := by
+  simp only [sphere_eqRadius, sphere_thermoFactor, sphere_kineticFactor, and_self]
+
+/-- the eq.-radius factor and the unit-volume semi-axes are consistent: (factor × short
+unit-volume semi-axis)³ is the cubed radius of the unit-volume sphere, 3/(4π). -/
+theorem needle_eqRadius_normalRadii (ar : α) (hc : ∀ x : α, Trans.cbrt x ^ 3 = x) (har : ar ≠ 0) :
+    (needle_eqRadius ar * needle_normalRadii_r0 ar) ^ 3 = 3 / (4 * π) := by
+  simp only [needle_eqRadius, needle_normalRadii_r0, mul_pow, hc]
+  field_simp
+
+theorem plate_eqRadius_normalRadii (ar : α) (hc : ∀ x : α, Trans.cbrt x ^ 3 = x) (har : ar ≠ 0) :
+    (plate_eqRadius ar * plate_normalRadii_r2 ar) ^ 3 = 3 / (4 * π) := by
+  simp only [plate_eqRadius, plate_normalRadii_r2, mul_pow, hc, npow]
+  field_simp
+
+end generic
+
 end KawinV.Props.C15
